@@ -298,7 +298,7 @@ Section Sim.
     lex_echo_from m (a ++ b) = lex_echo_from m a ++ lex_echo_from (mode_after m a) b.
   Proof.
     induction a as [| c a IH]; intros b m; simpl; [reflexivity |].
-    rewrite IH, app_assoc. reflexivity.
+    rewrite IH, ?app_assoc. reflexivity.
   Qed.
 
   Lemma mode_after_app1 : forall t m c, mode_after m (t ++ [c]) = lex_step (mode_after m t) c.
